@@ -30,6 +30,12 @@ EXTRA_LEN = {"externalSigned": dict(fn="varintExternalSignedEncoding", family="e
 ENC32 = {"chainedSimple32": dict(fn="varintChainedSimpleEncode32", bits=32, spec=lambda: SP.chained_simple(32))}
 
 
+class EncoderNotInjective(AnalysisBroken):
+    """the class table cannot be built because the function chooses a class from a narrowed value, and two witnesses of that show equal output"""
+    def __init__(self, fn, ex):
+        AnalysisBroken.__init__(self, "E1: %s: %s" % (fn, ex)); self.fn = fn; self.ex = ex
+
+
 def extract(mod, fn, kind, in_lo=0, in_hi=None, bits=64, const_args=None):
     if mod.fn(fn) is None: raise AnalysisBroken("anchor function vanished: %s" % fn)
     kw = dict(ENC if kind == "enc" else LEN if kind == "len" else B0)
@@ -40,6 +46,8 @@ def extract(mod, fn, kind, in_lo=0, in_hi=None, bits=64, const_args=None):
     if const_args: kw["const_args"] = const_args
     try:
         return e1.table(mod, fn, **kw)
+    except e1.NotInjective as e:
+        raise EncoderNotInjective(fn, e)
     except e1.Unsupported as e:
         raise AnalysisBroken("E1: %s is outside the supported term language: %s" % (fn, e))
     except RecursionError:
